@@ -323,53 +323,57 @@ Proof.
 Qed.
 
 (* ---- the Union loaders on a dumped member instance ------------------------------------ *)
-Lemma load_union_v0_dumped c pre args m vals t :
-  tags_injective c args -> In (AData m) args -> eff_tag c m = Some t ->
+Lemma load_union_v0_dumped c pre built args m vals t :
+  tags_injective c args -> In (AData m) args -> eff_tag c m = Some t -> dump_tag c built m = Some t ->
   conforming m vals -> is_field (u_tag_key c) m = false -> tag_key_tolerated_v0 c pre m ->
-  load_union_v0 c pre args (dump_member c m vals) = Ok (LInst m vals []).
+  load_union_v0 c pre args (dump_member c built m vals) = Ok (LInst m vals []).
 Proof.
-  intros Inj Hin Ht Hc Hk Htol. unfold dump_member. rewrite Ht. unfold load_union_v0.
+  intros Inj Hin Ht Hd Hc Hk Htol. unfold dump_member. rewrite Hd. unfold load_union_v0.
   rewrite scan_scalars_nonscalar by reflexivity.
   rewrite lookup_dict_set_same, (tag_lookup_inj c t args m Inj Hin Ht).
   now apply load_member_v0_dumped.
 Qed.
 
-Lemma load_union_v1_dumped coerce c args m vals t :
+Lemma load_union_v1_dumped coerce c built args m vals t :
   tags_injective c args -> names_injective c args -> In (AData m) args -> eff_tag c m = Some t ->
+  dump_tag c built m = Some t ->
   conforming m vals -> is_field (u_tag_key c) m = false ->
-  load_union_v1 coerce c args (dump_member c m vals) = Ok (LInst m vals []).
+  load_union_v1 coerce c args (dump_member c built m vals) = Ok (LInst m vals []).
 Proof.
-  intros Inj NInj Hin Ht Hc Hk. unfold dump_member. rewrite Ht. unfold load_union_v1.
+  intros Inj NInj Hin Ht Hd Hc Hk. unfold dump_member. rewrite Hd. unfold load_union_v1.
   rewrite lookup_dict_set_same, (tag_lookup_inj c t args m Inj Hin Ht).
   rewrite (fn_member_inj c args m NInj Hin) by now rewrite Ht.
   now apply load_member_v1_dumped.
 Qed.
 
 (* ---- conforming values at container positions -------------------------------------------- *)
-Inductive leaf_v0 (c : uconf) (pre : bool) (args : list arg) : lv -> Prop :=
+(* `dump_tag c built m = Some t` next to `eff_tag c m = Some t`: the dumper emits the tag the loader dispatches on
+   (region hypothesis forced by finding F62: a tag that only the member's own auto_assign_tags assigns is emitted
+   only when the container's Union parser was built before) *)
+Inductive leaf_v0 (c : uconf) (pre built : bool) (args : list arg) : lv -> Prop :=
 | leaf_v0_inst m vals t :
-    In (AData m) args -> eff_tag c m = Some t -> conforming m vals ->
+    In (AData m) args -> eff_tag c m = Some t -> dump_tag c built m = Some t -> conforming m vals ->
     is_field (u_tag_key c) m = false -> tag_key_tolerated_v0 c pre m ->
-    leaf_v0 c pre args (LInst m vals [])
+    leaf_v0 c pre built args (LInst m vals [])
 | leaf_v0_scalar j s :
-    scalar_of j = Some s -> In (AScalar s) args -> leaf_v0 c pre args (LScalar j).
+    scalar_of j = Some s -> In (AScalar s) args -> leaf_v0 c pre built args (LScalar j).
 
-Inductive leaf_v1 (c : uconf) (args : list arg) : lv -> Prop :=
+Inductive leaf_v1 (c : uconf) (built : bool) (args : list arg) : lv -> Prop :=
 | leaf_v1_inst m vals t :
-    In (AData m) args -> eff_tag c m = Some t -> conforming m vals ->
+    In (AData m) args -> eff_tag c m = Some t -> dump_tag c built m = Some t -> conforming m vals ->
     is_field (u_tag_key c) m = false ->
-    leaf_v1 c args (LInst m vals [])
+    leaf_v1 c built args (LInst m vals [])
 | leaf_v1_scalar j s :
-    scalar_of j = Some s -> In (AScalar s) args -> leaf_v1 c args (LScalar j).
+    scalar_of j = Some s -> In (AScalar s) args -> leaf_v1 c built args (LScalar j).
 
-Inductive shaped (c : uconf) (L : lv -> Prop) : pos -> lv -> Prop :=
-| sh_here v : L v -> shaped c L PHere v
-| sh_opt_none p : shaped c L (POpt p) LNone
-| sh_opt p v : shaped c L p v -> dump_lv c v <> JNull -> shaped c L (POpt p) v
-| sh_list p l : Forall (shaped c L p) l -> shaped c L (PList p) (LList l)
-| sh_dict p items : Forall (fun kv => shaped c L p (snd kv)) items -> shaped c L (PDict p) (LDict items)
-| sh_tuple p v n : shaped c L p v -> shaped c L (PTuple p) (LTuple [v; LScalar (JInt n)])
-| sh_vtuple p l : Forall (shaped c L p) l -> shaped c L (PVTuple p) (LTuple l).
+Inductive shaped (c : uconf) (built : bool) (L : lv -> Prop) : pos -> lv -> Prop :=
+| sh_here v : L v -> shaped c built L PHere v
+| sh_opt_none p : shaped c built L (POpt p) LNone
+| sh_opt p v : shaped c built L p v -> dump_lv c built v <> JNull -> shaped c built L (POpt p) v
+| sh_list p l : Forall (shaped c built L p) l -> shaped c built L (PList p) (LList l)
+| sh_dict p items : Forall (fun kv => shaped c built L p (snd kv)) items -> shaped c built L (PDict p) (LDict items)
+| sh_tuple p v n : shaped c built L p v -> shaped c built L (PTuple p) (LTuple [v; LScalar (JInt n)])
+| sh_vtuple p l : Forall (shaped c built L p) l -> shaped c built L (PVTuple p) (LTuple l).
 
 Lemma mapM_ok (g : jv -> res) (d : lv -> jv) l :
   Forall (fun v => g (d v) = Ok v) l -> mapM g (map d l) = (Some l, None).
@@ -386,44 +390,44 @@ Proof.
   cbn [snd] in Hv. rewrite Hv. fold (mapM_items g). now rewrite IH.
 Qed.
 
-Lemma load_pos_roundtrip (f : jv -> res) c (L : lv -> Prop) :
-  (forall v, L v -> f (dump_lv c v) = Ok v) ->
-  forall p v, shaped c L p v -> load_pos f p (dump_lv c v) = Ok v.
+Lemma load_pos_roundtrip (f : jv -> res) c built (L : lv -> Prop) :
+  (forall v, L v -> f (dump_lv c built v) = Ok v) ->
+  forall p v, shaped c built L p v -> load_pos f p (dump_lv c built v) = Ok v.
 Proof.
   intros HL. induction p as [|p IH|p IH|p IH|p IH|p IH]; intros v Sh; inversion Sh; subst; cbn [load_pos].
   - now apply HL.
   - reflexivity.
-  - match goal with Hs : shaped c L p v, Hn : dump_lv c v <> JNull |- _ =>
-      specialize (IH v Hs); destruct (dump_lv c v) eqn:E; try exact IH; now contradiction Hn end.
+  - match goal with Hs : shaped c built L p v, Hn : dump_lv c built v <> JNull |- _ =>
+      specialize (IH v Hs); destruct (dump_lv c built v) eqn:E; try exact IH; now contradiction Hn end.
   - match goal with Hf : Forall _ _ |- _ =>
-      cbn [dump_lv]; rewrite (mapM_ok (load_pos f p) (dump_lv c) l); [reflexivity|];
+      cbn [dump_lv]; rewrite (mapM_ok (load_pos f p) (dump_lv c built) l); [reflexivity|];
       eapply Forall_impl; [|exact Hf]; intros a Ha; now apply IH end.
   - match goal with Hf : Forall _ _ |- _ =>
-      cbn [dump_lv]; rewrite (mapM_items_ok (load_pos f p) (dump_lv c) items); [reflexivity|];
+      cbn [dump_lv]; rewrite (mapM_items_ok (load_pos f p) (dump_lv c built) items); [reflexivity|];
       eapply Forall_impl; [|exact Hf]; intros a Ha; now apply IH end.
-  - match goal with Hs : shaped c L p ?w |- _ => cbn [dump_lv map]; now rewrite (IH w Hs) end.
+  - match goal with Hs : shaped c built L p ?w |- _ => cbn [dump_lv map]; now rewrite (IH w Hs) end.
   - match goal with Hf : Forall _ _ |- _ =>
-      cbn [dump_lv]; rewrite (mapM_ok (load_pos f p) (dump_lv c) l); [reflexivity|];
+      cbn [dump_lv]; rewrite (mapM_ok (load_pos f p) (dump_lv c built) l); [reflexivity|];
       eapply Forall_impl; [|exact Hf]; intros a Ha; now apply IH end.
 Qed.
 
-Lemma dispatch_v0 c pre args :
+Lemma dispatch_v0 c pre built args :
   tags_injective c args ->
-  forall p v, shaped c (leaf_v0 c pre args) p v ->
-              load_pos (load_union_v0 c pre args) p (dump_lv c v) = Ok v.
+  forall p v, shaped c built (leaf_v0 c pre built args) p v ->
+              load_pos (load_union_v0 c pre args) p (dump_lv c built v) = Ok v.
 Proof.
-  intros Inj. apply load_pos_roundtrip. intros v Hv. destruct Hv as [m vals t Hin Ht Hc Hk Htol|j s Hs Hin].
+  intros Inj. apply load_pos_roundtrip. intros v Hv. destruct Hv as [m vals t Hin Ht Hd Hc Hk Htol|j s Hs Hin].
   - cbn [dump_lv]. rewrite app_nil_r. now apply load_union_v0_dumped with (t := t).
   - cbn [dump_lv]. unfold load_union_v0. rewrite (scan_scalars_in args j s Hs Hin).
-    destruct j; try reflexivity. discriminate.
+    destruct j; try reflexivity; try discriminate.
 Qed.
 
-Lemma dispatch_v1 coerce c args :
+Lemma dispatch_v1 coerce c built args :
   tags_injective c args -> names_injective c args ->
-  forall p v, shaped c (leaf_v1 c args) p v ->
-              load_pos (load_union_v1 coerce c args) p (dump_lv c v) = Ok v.
+  forall p v, shaped c built (leaf_v1 c built args) p v ->
+              load_pos (load_union_v1 coerce c args) p (dump_lv c built v) = Ok v.
 Proof.
-  intros Inj NInj. apply load_pos_roundtrip. intros v Hv. destruct Hv as [m vals t Hin Ht Hc Hk|j s Hs Hin].
+  intros Inj NInj. apply load_pos_roundtrip. intros v Hv. destruct Hv as [m vals t Hin Ht Hd Hc Hk|j s Hs Hin].
   - cbn [dump_lv]. rewrite app_nil_r. now apply load_union_v1_dumped with (t := t).
   - cbn [dump_lv]. unfold load_union_v1, untagged_v1. rewrite (scan_scalars_in args j s Hs Hin).
     destruct j; try discriminate; now destruct (has_none args).
@@ -445,7 +449,9 @@ Lemma order_irrelevant_v0 c pre args args' o :
 Proof.
   intros P Inj. unfold load_union_v0.
   rewrite (scan_scalars_perm args args' o P).
-  destruct o; try apply same_res_refl.
+  assert (HN : has_none args = has_none args') by (unfold has_none; now apply existsb_perm).
+  rewrite <- HN.
+  destruct o; try apply same_res_refl; try (destruct (has_none args); apply same_res_refl).
   destruct (scan_scalars args' (JDict items)); [apply same_res_refl|].
   destruct (lookup (u_tag_key c) items) as [tagv|]; [|apply same_res_refl].
   destruct tagv; try apply same_res_refl; try (cbn; now apply valid_tags_perm).
